@@ -223,16 +223,21 @@ func c04Scenarios(tier string) []*core.Scenario {
 	segs := []int64{0, 1, 8, 0x10, 0xffff, 0x10000, 0x10008}
 	offs := []int64{0, 1, 0x1b, 0x7f, 0x80, 0xff, 0x100, 0x7fff, 0x8000, 0xffff, 0x10000, 0x7fffffff, 0x80000000, 0xffffffff, 0x100000000, 0x100000010}
 	scs = append(scs, &core.Scenario{Name: "far_jmp", Bound: -1,
-		Rule:   "JMP DWORD seg:off for boundary selector and offset values x BITS: decoded far pointer fields must equal the source's",
+		Rule:   "JMP {DWORD, WORD, no keyword} seg:off for boundary selector and offset values x BITS: decoded far pointer fields must equal the source's (either pointer width is accepted for WORD), and the pass-1 size must equal the emitted length",
 		Bounds: map[string]any{"selectors": segs, "offsets": offs},
 		Build: func(c *core.Chooser) *core.Case {
 			mode := []int{16, 32}[c.Pick("mode", 2)]
 			sg := segs[c.Pick("seg", len(segs))]
 			of := offs[c.Pick("off", len(offs))]
-			form := c.Str("form", "DWORD", "plain")
+			form := c.Str("form", "DWORD", "plain", "WORD")
 			stmt := fmt.Sprintf("JMP DWORD 0x%x:0x%x", sg, of)
 			if form == "plain" {
 				stmt = fmt.Sprintf("JMP 0x%x:0x%x", sg, of)
+			} else if form == "WORD" {
+				if of > 0xffff {
+					return nil // a 16-bit offset is asked for: which of the two wins is not defined
+				}
+				stmt = fmt.Sprintf("JMP WORD 0x%x:0x%x", sg, of)
 			}
 			return &core.Case{
 				Key:  fmt.Sprintf("BITS %d|%s", mode, stmt),
@@ -270,6 +275,10 @@ func c04Scenarios(tier string) []*core.Scenario {
 					}
 					if form == "DWORD" && in.OpSize != 32 {
 						v.Fails = append(v.Fails, core.Fail{Facet: "far_pointer", Dev: fmt.Sprintf("offset_size:%d", in.OpSize), Detail: fmt.Sprintf("decoded %s from % X", in, r.Out)})
+					}
+					if !r.ViaCLI && !r.Died && int(r.LOC)-int(rs[1].LOC) != len(r.Out) {
+						v.Fails = append(v.Fails, core.Fail{Facet: "size_estimate", Dev: fmt.Sprintf("est=%d emit=%d", int(r.LOC)-int(rs[1].LOC), len(r.Out)),
+							Detail: fmt.Sprintf("pass 1 sized %s as %d bytes, %d were emitted (% X)", stmt, int(r.LOC)-int(rs[1].LOC), len(r.Out), r.Out)})
 					}
 					m := int64(1)<<uint(in.OpSize) - 1
 					if in.Ops[0].Off != of&m || (of&^m) != 0 {
